@@ -1,8 +1,33 @@
 """C02 -- each located droplet is one connected component under the grid's topology."""
-from contracts import locmask as lm
+from contracts import emulsions as em, locmask as lm
+
 LEVEL = "other"
-LEVEL_TEXT = "interim: bounded stand-in only (exhaustive small images against a periodic flood-fill oracle / seeded render-locate configurations); the contracts on the locating functions are being added"
-LEVEL_NOTE = "bounded only so far; nothing is proved for this property yet"
-CONTRACTS = []
-LEMMAS = []
+LEVEL_TEXT = ("_locate_droplets_in_mask_cartesian is verified as a whole for dimensions 1-3 and every periodicity mask (14 cases; any image size, any "
+              "number of clusters): against ASSUMED contracts of scipy.ndimage (label = face-connected components, center_of_mass = mean index, sum "
+              "= cell count) the periodic stitching loop is cut by invariants over a symbolic labelling state with ghost counts and ghost means "
+              "(quantifier-free: hypotheses instantiated at the current pair, Skolem cells / label / pair index; goals proved at the Skolem terms): "
+              "labels stay in range; volume of a live label == cell volume * its number of cells; position of a live label == mean over its cells "
+              "of (index + 1/2 + periods moved * cells per period); cells of one initial component keep one label and one shift; every scanned "
+              "pair of facing boundary cells that are both set ends up with one label; after each merge the upper boundary cell lies exactly "
+              "one cell below the lower one in unwrapped coordinates (the obligation that found defect F6); the nonlinear core of the merge "
+              "(volume-weighted mean == count-weighted mean of the component means) is discharged separately from the array reasoning. Post: "
+              "every periodic axis is scanned completely and once; one candidate per label still present, made by from_volume with the "
+              "component's volume and its mean unwrapped cell centre in grid coordinates (wrapped by whole periods on periodic axes); overlap "
+              "removal is called once with the grid's metric (its clauses are C10's contract, verified here too); an image without set cells "
+              "gives the empty emulsion. Ghost update laws (counts add up, mean of a disjoint union is the count-weighted mean: A-SUM) are "
+              "trusted mathematics. That the label classes are exactly the periodic connected components for NON-winding components at the "
+              "skipped pairs is topology (not applicable to contracts); it, the ndimage contracts and the cylindrical variants are covered by "
+              "the exhaustive small-image comparison with an independent periodic flood fill (bounded) - hence level 'other'.")
+LEVEL_NOTE = ("ASSUMED: scipy.ndimage.label / center_of_mass / sum on binary images; numpy masked assignment, np.unique, itertools.product order; "
+              "A-SUM (finite sums over disjoint cell sets); A-PDE: transform(cell->grid) affine, normalize_point wraps by whole periods; contract of "
+              "SphericalDroplet.from_volume (C12) and Emulsion.remove_overlapping (C10); induction over loop iterations from the invariants; "
+              "A-FP; cylindrical grids: bounded only, with two KNOWN FINDINGS (spanning fallback, Euclidean overlap metric on periodic z)")
+CONTRACTS = [lm.LocateCartesian().ident, em.RemoveOverlapping().ident, em.Overlaps().ident]
+LEMMAS = ["strictly-largest-droplet-survives"]
+CLAUSES = {"droplets <-> connected components (faces + periodic boundaries), one-to-one": "merge invariants proved; equality with the periodic components "
+           "for non-winding shapes: bounded (exhaustive <= 4x4, 3x2x2; 6000 random)",
+           "volume == component's total cell volume": "proved (ghost counts)",
+           "position == centre of mass of the unwrapped component (mod period)": "proved for the unwrapping the code constructs; consistency at skipped pairs: bounded",
+           "returned droplets never overlap; a component is left out only for a larger overlapping one": "C10 contract (proved) + call-site clause (proved)",
+           "cylindrical grids": "bounded; known findings listed in known_findings.jsonl"}
 BOUNDED = [lm.ImageEnumeration()]
